@@ -1,5 +1,5 @@
 (** * HTLC: a concrete case built from the model's own observations (non-vacuity of
-    [model_passes_check]): the 13-operation history of [Examples.v], 5 actors, 5 denoms. *)
+    [model_passes_check]): the history of [Examples.v] with its three parameter-change steps (16 operations), 5 actors, 5 denoms. *)
 From Irismod Require Import Htlc.Model Htlc.Check Htlc.Proofs Htlc.Sound Htlc.Passes Htlc.Examples.
 
 Definition model_obs (k : case) (nd : nat) (s : state) (code : Z) : obs :=
@@ -32,6 +32,7 @@ Definition exCops : list cop :=
     CCreate 1 (mkCreate 3 0 [(0, 200)] (8, ts0) ts0 50 true);
     CClaim 0 1 8;
     CCreate 2 (mkCreate 0 3 [(0, 50)] (9, ts0) ts0 50 true);
+    CSetParams GOV exRaise; CSetParams 0 exBadCut; CSetParams GOV exInvalid;
     CCreate 2 (mkCreate 0 3 [(0, 50)] (9, ts0) ts0 60 true);
     CCreate 3 (mkCreate 1 0 [(4, 30)] (10, 0) 0 50 false);
     CAdvN 49 ns;
